@@ -10,7 +10,7 @@ namespace OP2Utility::Stream
 
 	void MemoryReader::ReadImplementation(void* buffer, std::size_t size)
 	{
-		if (position + size > streamSize) {
+		if (size > streamSize - position) {
 			throw std::runtime_error("Size of bytes to read exceeds remaining size of buffer.");
 		}
 
